@@ -359,6 +359,15 @@ bool AnalyserInternalEquation::check(const AnalyserModelPtr &model,
         }
     }
 
+    // Note: the same goes for a known ODE variable, i.e. a state whose rate is
+    //       used by the equation and computed by another equation.
+
+    for (const auto &odeVariable : mOdeVariables) {
+        if (isKnownOdeVariable(odeVariable)) {
+            mDependencies.push_back(odeVariable->mVariable);
+        }
+    }
+
     // Stop tracking (new) known (ODE) variables.
 
     mVariables.erase(std::remove_if(mVariables.begin(), mVariables.end(), isKnownVariable), mVariables.end());
